@@ -531,10 +531,6 @@ fn shape_of(c: &Command) -> Vec<String> {
     }
 }
 
-fn budget_over(case_secs: u64, t0: Instant) -> bool {
-    t0.elapsed() > Duration::from_secs(case_secs)
-}
-
 /// A sentence with a verdict from KipGrammar.tla.
 fn check_tree(cx: &Ctx, case: &Value, out: &mut CaseOut) -> Result<(), String> {
     let toks = case["toks"].as_array().ok_or("case without toks")?;
